@@ -8,7 +8,7 @@ reference-path guard (fixes/C29-reference-cycle.diff), `resolveF` is the code as
 All theorems quantify over every table, every requested configuration, every id; reference
 graphs may contain cycles of any length.
 -/
-import AgVerif.Proof.Resolve
+import AgVerif.Proof.ResolveExact
 import AgVerif.Gen.Resolver
 namespace AgVerif.C29
 open AgVerif.Resolve AgVerif.Spec.Reach
@@ -41,6 +41,19 @@ theorem resolveV_eq_reach (t : Table) (w : Option Config) (rid : ResId) (fuel : 
   · exact resolveVF_sound t w fuel [] rid out h tok hv
   · rintro ⟨r, hr, hd⟩
     exact resolveVF_complete t w fuel [] rid out h r tok (reach_iff_avoid_nil.mp hr) hd
+
+/-- Scope of `resolveV_eq_reach`: it speaks about the SET of concrete value tokens of the result
+    (`pair config text`, `bare text`); the order of the list, the multiplicity of a value reached
+    along several reference paths, and the bracket tokens `opn`/`cls` are not constrained by it
+    ("returns the concrete values reachable").  The list itself is pinned down exactly in two ways:
+    `resolve_eq_resolveV_of_returns` (token for token what the code as written returned) and the
+    following theorem: when none of the entries selected for the id holds a reference, the result
+    is exactly the stored values of the selected configurations, in order, one element per entry —
+    `(config, text)` for a simple entry, `(config, [texts…])` for a complex one. -/
+theorem resolveV_exact_without_references (t : Table) (w : Option Config) (rid : ResId) (hr : rid ≠ 0)
+    (h : ∀ p ∈ getResConfigs t rid w, refFree p.2 = true) :
+    resolveV t w rid = .ok ((getResConfigs t rid w).flatMap fun p => tokE p.1 p.2) :=
+  resolveV_refFree t w rid hr h
 
 /-- The same at the level of `get_resolved_res_configs`. -/
 theorem resolveV_top_eq_reach (t : Table) (w : Option Config) (rid : ResId) (hr : rid ≠ 0) :
@@ -144,5 +157,7 @@ example : resolveF chain none 4 1 = some [.pair 5 "z", .pair 3 "a"] := by decide
 example : resolveV chain none 1 = .ok [.pair 5 "z", .pair 3 "a"] := by decide
 example : resolveV chain (some 3) 1 = .ok [.pair 3 "a"] := by decide
 example : resolveV chain none 0 = .valueError := by decide
+example : ∀ p ∈ getResConfigs chain 3 none, refFree p.2 = true := by decide
+example : resolveV chain none 3 = .ok [.pair 5 "z"] := resolveV_exact_without_references chain none 3 (by decide) (by decide)
 
 end AgVerif.C29
